@@ -8,7 +8,7 @@ U(n) == S!U(n)  I(n) == S!I(n)  Bits(n) == S!Bits(n)  Bool == S!Bool  VarU(n) ==
 Grams == S!Grams  Leq(n) == S!Leq(n)  AddrInt == S!AddrInt  AddrExt == S!AddrExt  CC == S!CC  Maybe(t) == S!Maybe(t)
 Either(l, r) == S!Either(l, r)  Ref(t) == S!Ref(t)  RefCell == S!RefCell  AnyRest == S!AnyRest  Named(nm) == S!Named(nm)
 HmE(n, t) == S!HmE(n, t)  Hm(n, t) == S!Hm(n, t)  If(fl, t) == S!If(fl, t)  IfBit(fl, b, t) == S!IfBit(fl, b, t)
-Lite(t) == S!Lite(t)  HmAug(n, t, x) == S!HmAug(n, t, x)
+Lite(t) == S!Lite(t)  HmAug(n, t, x) == S!HmAug(n, t, x)  HmAugE(n, t, x) == S!HmAugE(n, t, x)  RefAny == S!RefAny
 RefPick(fl, t0, t1) == S!RefPick(fl, t0, t1)  F(name, t) == S!F(name, t)  Alt(cn, tag, fs) == S!Alt(cn, tag, fs)
 Tag32(a, b, c, d) == S!BytesToBits(<<a, b, c, d>>)
 Tag8(a) == S!BytesToBits(<<a>>)
@@ -157,7 +157,18 @@ TheSchema == [
      Alt("msg_export_tr_req", <<1,1,1>>, << F("out_msg", Ref(Lite(Named("MsgEnvelopeAny")))), F("imported", Ref(Lite(Named("InMsg")))) >>),
      Alt("msg_export_deq_imm", <<1,0,0>>, << F("out_msg", Ref(Lite(Named("MsgEnvelopeAny")))), F("reimport", Ref(Lite(Named("InMsg")))) >>),
      Alt("msg_export_new_defer", <<1,0,1,0,0>>, << F("out_msg", Ref(Lite(Named("MsgEnvelopeAny")))), F("transaction", Ref(Lite(Named("Transaction")))) >>),
-     Alt("msg_export_deferred_tr", <<1,0,1,0,1>>, << F("out_msg", Ref(Lite(Named("MsgEnvelopeAny")))), F("imported", Ref(Lite(Named("InMsg")))) >>) >>
+     Alt("msg_export_deferred_tr", <<1,0,1,0,1>>, << F("out_msg", Ref(Lite(Named("MsgEnvelopeAny")))), F("imported", Ref(Lite(Named("InMsg")))) >>) >>,
+  \* ---- the block itself
+  \* block_extra in_msg_descr:^InMsgDescr out_msg_descr:^OutMsgDescr account_blocks:^ShardAccountBlocks rand_seed:bits256 created_by:bits256
+  \*   custom:(Maybe ^McBlockExtra) = BlockExtra;   InMsgDescr = HashmapAugE 256 InMsg ImportFees, OutMsgDescr = HashmapAugE 256 OutMsg
+  \*   CurrencyCollection, ShardAccountBlocks = HashmapAugE 256 AccountBlock CurrencyCollection.  McBlockExtra is not transcribed (RefAny).
+  BlockExtra |-> << Alt("block_extra", Tag32(74, 51, 246, 253), <<
+        F("in_msg_descr", Ref(HmAugE(256, Lite(Named("InMsg")), Named("ImportFees")))), F("out_msg_descr", Ref(HmAugE(256, Lite(Named("OutMsg")), CC))),
+        F("account_blocks", Ref(HmAugE(256, Lite(Named("AccountBlock")), CC))), F("rand_seed", Bits(256)), F("created_by", Bits(256)),
+        F("custom", Maybe(RefAny)) >>) >>,
+  \* block#11ef55aa global_id:int32 info:^BlockInfo value_flow:^ValueFlow state_update:^(MERKLE_UPDATE ShardState) extra:^BlockExtra = Block;
+  Block |-> << Alt("block", Tag32(17, 239, 85, 170), << F("global_id", I(32)), F("info", Ref(Named("BlockInfo"))), F("value_flow", Ref(Named("ValueFlow"))),
+        F("state_update", RefAny), F("extra", Ref(Lite(Named("BlockExtra")))) >>) >>
 ]
 \* constructor labels: where the library names a constructor differently from block.tlb (data, compared by TLC);
 \* "" = the library reports the alternative as an absent object; constructors not listed carry their block.tlb name
